@@ -105,6 +105,48 @@ def unbounded_int_source(t) -> Optional[str]:
             return show(t)
         if f in (('ref', 'builtin', 'str'), ('ref', 'builtin', 'repr'), ('ref', 'builtin', 'abs')) and len(t[3]) == 1:
             return unbounded_int_source(t[3][0])
+        if f == ('ref', 'builtin', 'format') and len(t[3]) == 2 and not t[4]:
+            why = _spec_writes_digits(t[3][1])
+            if why:
+                return '%s [%s]' % (show(t), why)
+    if t[0] == 'fstr':
+        for part in t[1:]:
+            if isinstance(part, tuple) and part[:1] == ('fmt',):
+                why = _spec_writes_digits(part[2])
+                if why:
+                    return '%s [%s]' % (show(t), why)
+    return None
+
+
+def source_kind(t) -> str:
+    """The primitive behind an unbounded source, independent of how its operands are spelled (keys of findings use it)."""
+    t = freeze(t)
+    while isinstance(t, tuple) and t[:1] == ('call',) and t[2] in (('ref', 'builtin', 'str'), ('ref', 'builtin', 'repr'), ('ref', 'builtin', 'abs')) \
+            and len(t[3]) == 1:
+        t = t[3][0]
+    if isinstance(t, tuple) and t[:1] == ('call',) and isinstance(t[2], tuple) and t[2][:1] == ('ref',):
+        return t[2][2].rsplit('.', 1)[-1] + '()'
+    if isinstance(t, tuple) and t[:1] == ('fstr',):
+        return 'f-string'
+    return 'value'
+
+
+def _spec_writes_digits(spec) -> Optional[str]:
+    """Why the text a number is formatted to under this format specification can have more digits than the number: fixed-point
+    presentation writes a large exponent out in digits and pads to the requested precision; a precision that is not a small
+    constant pads without bound.  The Decimal constructor takes all of them (it is exact)."""
+    import re
+    spec = freeze(spec)
+    if not (isinstance(spec, tuple) and spec[:1] == ('const',) and isinstance(spec[1], str)):
+        return 'the format specification is computed, so is the number of digits written'
+    m = re.fullmatch(r'(?:.?[<>=^])?[-+ ]?z?#?0?(\d*)[_,]?(?:\.(\d+))?([a-zA-Z%]?)', spec[1])
+    if m is None:
+        return None
+    prec, ty = m.group(2), m.group(3)
+    if ty in ('f', 'F', '%'):
+        return 'fixed-point presentation writes the exponent out in digits and pads to the precision'
+    if prec and int(prec) > 27 and ty in ('e', 'E'):
+        return 'precision above 28 digits pads with zeros the exact constructor keeps'
     return None
 
 
@@ -195,3 +237,43 @@ def context_untouched(chk, R: str) -> None:
             chk.bad(R, '%s :: decimal context' % m.name, '%s:%d' % (m.rel, line), det + ' (the statement relies on the default 28-digit, half-even context)')
     if not found:
         chk.ok(R, 'decimal context', 'smartquery/*.py', 'never read or changed anywhere in the package (detector self-test %d example hits)' % len(hits))
+
+
+def number_constructor(chk, R: str) -> None:
+    """Decimal(x) is read by every numeric rule as "the decimal value of x, exactly" (the stdlib constructor).  A number class of
+    the package that defines __new__ keeps that reading only if every path of it returns super().__new__(cls, <its value
+    argument>, ...): a path that answers from a table, a memo or a converted argument returns some other number."""
+    from ..symexec import SymExec, show as _show
+    F = chk.facts
+    n = 0
+    for cq in sorted(decimal_classes(F)):
+        ci = F.classes.get(cq)
+        if ci is None or '.ply' in ci.module.name:
+            continue
+        n += 1
+        where = '%s:%d' % (ci.module.rel, ci.node.lineno)
+        q = cq + '.__new__'
+        if '__new__' not in ci.methods or q not in F.functions:
+            chk.ok(R, '%s constructor' % cq, where, 'inherits the exact stdlib constructor')
+            continue
+        fi = F.func(q)
+        a = fi.node.args.args
+        problems = []
+        if len(a) < 2:
+            problems.append('__new__ takes no value argument')
+        else:
+            clsp, valp = ('param', a[0].arg), ('param', a[1].arg)
+            for p in SymExec(F, fi).run():
+                if not p.normal:
+                    continue
+                r = freeze(p.outcome[1])
+                ok = isinstance(r, tuple) and r[:1] == ('call',) and isinstance(r[2], tuple) and r[2][:1] == ('attr',) and r[2][2] == '__new__' \
+                    and isinstance(r[2][1], tuple) and r[2][1][:1] == ('super',) and len(r[3]) >= 2 and r[3][0] == clsp and r[3][1] == valp
+                if not ok:
+                    problems.append('a path returns %s instead of super().__new__(%s, %s, ...)' % (_show(r), a[0].arg, a[1].arg))
+        chk.require(not problems, R, '%s constructor' % cq, fi.where,
+                    '; '.join(sorted(set(problems))[:2]) + ': Decimal(x) no longer is the decimal value of x for every x (a negative int indexes a '
+                    'table from its end, an equal key finds another spelling, ...)' if problems else
+                    'every path builds the value through the stdlib constructor with the argument it was given')
+    if n == 0:
+        chk.ok(R, 'number class constructor', 'smartquery/custom_types.py', 'the package defines no subclass of decimal.Decimal')
